@@ -448,14 +448,14 @@ class Dx:
                      self.all_kids(e, inc)))))))
         return [self.F(e, inc) == body, NCH(e) >= 0]
 
-    def _kids(self, e, k, inc):
+    def _kids(self, e, k, inc, hint=True):
         k1 = z3.simplify(k - 1)
         c = CH(e, k1)
         tc = TAG(c)
         # consequence of the definition of dx at the child (the definition itself is only unfolded where dx(child) occurs in the
         # VC): an excluded element contributes nothing -- needed by a caller that skips such a child without calling the walker
         excluded = z3.Implies(z3.And(k > 0, z3.Not(is_ac(tc)), z3.Or(is_fb(tc), tc == W_MOVEFROM)), self.F(c, inc) == lit(""))
-        return prefix_def(self.KIDS(e, k, inc), k, cc(self.KIDS(e, k1, inc), self.F(c, inc))) + [excluded]
+        return prefix_def(self.KIDS(e, k, inc), k, cc(self.KIDS(e, k1, inc), self.F(c, inc))) + ([excluded] if hint else [])
 
     def run_item(self, c, inc):
         return z3.If(TAG(c) == W_T, self.h(TEXT(c)), z3.If(is_brk(TAG(c)), self.ws, self.F(c, inc)))
@@ -466,7 +466,7 @@ class Dx:
         return prefix_def(self.RUN(e, k, inc), k, cc(self.RUN(e, k1, inc), self.run_item(c, inc))) + [
                 z3.Implies(TEXT_NONE(c), TEXT(c) == lit("")),
                 z3.Implies(is_brk(TAG(c)), NCH(c) == 0)           # OOXML-SCHEMA: w:tab / w:br / w:cr are empty elements
-                ] + self._f(c, inc) + self._kids(c, NCH(c), inc)  # (definition instances at the child, so that dx(empty element) == "")
+                ] + self._f(c, inc) + self._kids(c, NCH(c), inc, hint=False)  # (definition instances at the child, so that dx(empty element) == "")
 
 
 DXN = Dx("nw", NW, "", "")
@@ -1432,7 +1432,7 @@ def lemmas():
         # sq image in D-form: every boundary contributes its own blank (leaf texts here contain no whitespace)
         dform = lambda s_: "".join(" " if ch.isspace() else ch for ch in s_)
         for nm, D, h, f in (("nw", DXN, NW, T.nw_lit), ("sq", DXS, SQ, dform)):
-            defs = ground_defs(nodes, [lambda e, D=D: D._f(e, inc)], [lambda e, k, D=D: D._kids(e, k, inc), lambda e, k, D=D: D._run(e, k, inc)])
+            defs = ground_defs(nodes, [lambda e, D=D: D._f(e, inc)], [lambda e, k, D=D: D._kids(e, k, inc, hint=False), lambda e, k, D=D: D._run(e, k, inc)])   # (ground: dx is defined at every node)
             goal = D.all_kids(root, inc) == lit(f(want))
             out.append((f"C02/spec::dx_{nm}/lemma#known-answer.{name}", facts + defs, goal))
     return out
